@@ -936,6 +936,10 @@ func (g *gen) mutate(code []byte) []byte {
 func genCase(leg string) func(t *rapid.T) EVMCase {
 	return func(t *rapid.T) EVMCase {
 		g := &gen{t: t, leg: leg, excl: map[string]bool{}, budget: 60}
+		if leg == "equalised" {
+			// the driver seeds both legs alike: shift the stream so that they explore different programs
+			g.i(0, 1<<30, "legsalt")
+		}
 		g.avoidS15 = h.IsKnownFor(prop, sigS15)
 		if leg == "deployed" {
 			g.avoidStatic = h.IsKnownFor(prop, sigS16Static)
